@@ -51,10 +51,10 @@ fn render_plain<E: std::fmt::Display + std::fmt::Debug>(e: &E) {
 // ---------------------------------------------------------------------------------------------
 // input generators
 
-const POLICY_TOKENS: [&str; 64] = [
+const POLICY_TOKENS: [&str; 67] = [
     "permit", "forbid", "when", "unless", "principal", "action", "resource", "context", "(", ")", "{", "}", "[", "]", ",", ";", ".", "::", "==", "!=", "<", "<=", ">", ">=", "&&", "||", "!", "-", "+", "*", "in", "is", "has", "like", "if", "then", "else", "true",
     "false", "?principal", "?resource", "@id", "\"s\"", "\"a*\\*\"", "\"\\u{1F600}\"", "0", "1", "9223372036854775807", "9223372036854775808", "A", "NS::B", "A::\"a\"", "Action::\"view\"", "ip", "decimal", "datetime", "\"10.0.0.1/8\"", "contains", "containsAll",
-    "isEmpty", "getTag", "hasTag", "//c\n", "\"unterminated",
+    "isEmpty", "getTag", "hasTag", "//c\n", "\"unterminated", "\"caf\\é*\"", "\"\\\u{1F600}\"", "\"\\x7\"",
 ];
 
 const SCHEMA_TOKENS: [&str; 40] = [
@@ -108,7 +108,36 @@ fn mutate_text(t: &mut Tape, s: &str) -> String {
             break;
         }
         let i = t.upto(cs.len());
-        match t.upto(8) {
+        match t.upto(9) {
+            8 => {
+                // an escape sequence (valid or not, followed by ASCII or multi-byte text) inside a string literal or pattern
+                let mut inside = Vec::new();
+                let (mut open, mut esc) = (false, false);
+                for (ix, c) in cs.iter().enumerate() {
+                    if open && !esc && *c != '"' {
+                        inside.push(ix);
+                    }
+                    if esc {
+                        esc = false;
+                    } else if *c == '\\' {
+                        esc = true;
+                    } else if *c == '"' {
+                        open = !open;
+                    }
+                }
+                let chunk: Vec<char> = t.pick(&["\\é", "\\\u{1F600}", "\\*", "\\u{1F600}", "\\u{110000}", "\\u{", "\\x", "\\x7", "\\xé", "\\0é", "\\\u{301}", "*é", "\\", "\\u{0}"]).chars().collect();
+                if inside.is_empty() {
+                    let lit: Vec<char> = format!(" \"caf{}*\" ", chunk.iter().collect::<String>()).chars().collect();
+                    for (o, c) in lit.into_iter().enumerate() {
+                        cs.insert((i + o).min(cs.len()), c);
+                    }
+                } else {
+                    let at = inside[t.upto(inside.len())];
+                    for (o, c) in chunk.into_iter().enumerate() {
+                        cs.insert((at + o).min(cs.len()), c);
+                    }
+                }
+            }
             0 => {
                 cs.remove(i);
             }
